@@ -448,8 +448,10 @@ func genWork(seed uint64) (twork, simrt.FaultPlan, simrt.MapPolicy, uint64) {
 	switch x := r.Intn(10); {
 	case x < 4:
 		w.Existing, w.Overwrite = "none", r.Chance(0.5)
-	case x < 7:
+	case x < 6:
 		w.Existing, w.Overwrite = "previous", true
+	case x < 7:
+		w.Existing, w.Overwrite = "same-tables", true
 	case x < 8:
 		w.Existing, w.Overwrite = "truncated", true
 	case x < 9:
@@ -756,6 +758,23 @@ func prepare(w *twork, seed uint64, dir string) prepared {
 			continue
 		}
 		switch w.Existing {
+		case "same-tables":
+			// what an earlier run on (an older state of) the same source left: the same table
+			// names and schemas with some rows; if it survived, rows would pile up
+			old := gpkgh.Source{SRS: w.Source.SRS}
+			for _, tb := range w.Source.Tables {
+				if !tb.Spatial {
+					continue
+				}
+				c := tb
+				if len(c.Rows) > 2 {
+					c.Rows = c.Rows[:len(c.Rows)/2]
+				}
+				old.Tables = append(old.Tables, c)
+			}
+			if err := gpkgh.WriteSource(tp, &old); err != nil {
+				simh.Fatalf("pre-existing target: %v", err)
+			}
 		case "previous", "truncated":
 			if err := gpkgh.WriteSource(tp, previousContent(seed+uint64(k))); err != nil {
 				simh.Fatalf("pre-existing target: %v", err)
